@@ -78,12 +78,15 @@ __CPROVER_ensures(gh_allocs == __CPROVER_old(gh_allocs))
 #endif
 
 /* ---- collector::operator(): value / rvalue / lvalue / void ------------------------------------------------------------------- *
- * Documented preconditions (requires): not MT safe - this thread is THE emitting side (S_ROLE_EMIT: nobody else detaches or writes the
- * value); the previous suspend point has been released (every listener of the previous emission has finished reading the old value:
- * gh_prev_released).  The collector handle is non-empty and mine. */
-int gh_prev_released; cv_i64 gh_v; void *gh_coll_obj;
+ * Documented precondition (requires): not MT safe - this thread is THE emitting side (S_ROLE_EMIT: nobody else detaches or writes the
+ * value).  The collector handle is non-empty and mine.
+ * NO precondition about the listeners of the previous emission: whether they have run (and re-subscribed) when the next call is made is
+ * not something a caller states, it is what the release of the returned suspend point does or does not achieve.  The property clause
+ * "delivered ... with that value" is therefore stated where the value is obtained - emitter::await_resume, clauses [with-that-value] below,
+ * unit em_resume_released - and "misses none" is decided on the real code by the drives (drive_*: plain thread; drive_incoro_*: from a coroutine). */
+cv_i64 gh_v; void *gh_coll_obj;
 #define COLL_PRE(this_) (C_PRE && gh_coll_obj == (void *)(this_) && (void *)SP_PI(&(this_)->_state) == (void *)gh_sg_blk && SP_PTR(&(this_)->_state) == STATE0 && \
-   gh_sg_mine_s >= 1 && gh_S_role == S_ROLE_EMIT && gh_S_excl == 0 && gh_prev_released == 1 && gh_my_node == 0 && gh_node_own == OWN_NONE)
+   gh_sg_mine_s >= 1 && gh_S_role == S_ROLE_EMIT && gh_S_excl == 0 && gh_my_node == 0 && gh_node_own == OWN_NONE)
 #define COLL_ASSIGNS(ret) __CPROVER_assigns(__CPROVER_object_whole(ret), __CPROVER_object_whole(gh_sg_blk), PROTS_GHOSTS, RC_GHOSTS, SG_GHOSTS)
 #define COLL_POST(ret) \
 __CPROVER_ensures(cv_exc_pending == 0 && WHOLE_CHAIN_RELEASED_ONCE && gh_n_push == 0) \
@@ -183,8 +186,16 @@ __CPROVER_ensures(gh_sg_disposed == 0 ==> (gh_n_detach == 0 && gh_rc_calls == 0)
 __CPROVER_ensures(gh_allocs == __CPROVER_old(gh_allocs) && gh_del_calls == 0)
 ;
 #endif
-/* await_resume: the current value iff the state is alive and a value is present, else await_canceled_exception.  Runs in the resumed
- * listener, i.e. after the emission and (documented protocol) before the next one: nobody writes the value meanwhile. */
+/* await_resume: the current value iff the state is alive and a value is present, else await_canceled_exception.
+ * [with-that-value] (property statement: "delivered to every listener that is waiting at that moment ... with that value"): the value a
+ * released listener obtains is the value of the collector call that released it.  Release record (logical variables, set by the release
+ * environment of unit em_resume_released; gh_rel_on == 0 in the units that start from an arbitrary state):
+ *   gh_rel_on     this resumption is the consequence of a collector call, whose value was gh_rel_val
+ *   gh_rel_queued the release of the suspend point returned by that call only QUEUED the listener (ready queue active = the collector was
+ *                 called from inside a coroutine and the suspend point was discarded: contract of suspend_point::suspend_now, coroutine mode,
+ *                 specs/C05/sp_q_spec.h "nothing is resumed, every handle lands at the tail"); 0: the listener runs INSIDE the release
+ *                 (plain thread: suspend_now, normal mode; or the emitting coroutine co_awaits the suspend point). */
+int gh_rel_on, gh_rel_queued; cv_i64 gh_rel_val;
 #ifdef CV_HAS_em_resume
 #ifdef CV_C15_VOID
 void em_resume(EMIT *this_)
@@ -192,6 +203,7 @@ void em_resume(EMIT *this_)
 cv_i32 *em_resume(EMIT *this_)
 #endif
 __CPROVER_requires(EM_PRE(this_) && gh_sg_shared == 1 && gh_my_node == 0 && gh_node_own == OWN_NONE)
+__CPROVER_requires((gh_rel_on == 0 || gh_rel_on == 1) && (gh_rel_queued == 0 || gh_rel_queued == 1))
 __CPROVER_assigns(__CPROVER_object_whole(gh_sg_blk), PROTS_GHOSTS, RC_GHOSTS, SG_GHOSTS, cv_exc_pending, cv_exc_obj, cv_exc_tinfo)
 __CPROVER_frees(gh_sg_blk)
 __CPROVER_ensures(gh_sg_locks == 1 && (gh_sg_lock_ok ==> __CPROVER_old(gh_sg_blk->cb.strong) >= 1) && (!EM_CONNECTED(this_) ==> !gh_sg_lock_ok))
@@ -202,7 +214,22 @@ __CPROVER_ensures((gh_sg_lock_ok && __CPROVER_old(gh_sg_blk->obj._cur_val) != 0)
 #endif
 __CPROVER_ensures((!gh_sg_lock_ok || __CPROVER_old(gh_sg_blk->obj._cur_val) == 0) ==> (cv_exc_pending == 1 && cv_exc_tinfo == (void *)TI_AWAIT_CANCELED))
 __CPROVER_ensures(gh_sg_mine_s == 0 && gh_n_push == 0 && gh_allocs == __CPROVER_old(gh_allocs) && gh_del_calls == 0)
+#ifndef CV_C15_VOID
+/* [with-that-value], listener resumed inside the release: a live object holding the value of the releasing call */
+__CPROVER_ensures((gh_rel_on == 1 && gh_rel_queued == 0 && cv_exc_pending == 0) ==> (__CPROVER_r_ok(__CPROVER_return_value, sizeof(cv_i32)) && *__CPROVER_return_value == (cv_i32)gh_rel_val))
+/* [with-that-value], listener only queued by the release - OPEN known finding (the emitting coroutine runs on before the listener does): */
+__CPROVER_ensures(/* C15-FINDING-emit-in-coroutine [with that value] released listener only queued: still a live object holding the value of the collector call that released it */ (gh_rel_on == 1 && gh_rel_queued == 1 && cv_exc_pending == 0) ==> (__CPROVER_r_ok(__CPROVER_return_value, sizeof(cv_i32)) && *__CPROVER_return_value == (cv_i32)gh_rel_val))
+#endif
 ;
+#endif
+/* The release environment of unit em_resume_released.  collector::operator() in the operational form of its contract (enforced on the real
+ * bodies in units collect_rvalue / collect_value / collect_lvalue): COLL_POST "gh_det_curval != 0 && gh_det_val == gh_v" and "STATE0->_cur_val ==
+ * gh_det_curval" - when the call returns the current-value pointer refers to an object holding the emitted value; STORED_POST - that object is
+ * the owned copy (engaged); co_call_lv - it is the caller's object itself and the owned copy is untouched. */
+#if defined(CV_HAS_em_resume) && !defined(CV_C15_VOID)
+static void c15_env_collector_call(cv_i64 v, int by_ref, cv_i32 *callers_obj) {
+  if (by_ref) { *callers_obj = (cv_i32)v; STATE0->_cur_val = callers_obj; }
+  else { ST_ENGAGED(STATE0) = 1; ST_STORED(STATE0) = (cv_i32)v; STATE0->_cur_val = (cv_i32 *)ST_STORAGE_ADDR(STATE0); } }
 #endif
 
 /* ---- connect(): the self-owning callback awaiter Awt ------------------------------------------------------------------------- */
